@@ -42,7 +42,8 @@ ENGINES = {
 PROPS = {
     "C01": dict(engine="sim", quick=45, thorough=900, level="exploration"),
     "C17": dict(engine="sim", quick=45, thorough=900, level="fault_enumeration"),
-    "C12": dict(engine="sim", quick=30, thorough=600, level="exploration"),
+    "C12": dict(engine="sim", quick=40, thorough=700, level="exploration",
+                parts=[dict(goprop="C12", engine="sim", share=0.6), dict(goprop="C12S", engine="race", share=0.4, gomaxprocs=4)]),
     "C14": dict(engine="sim", quick=30, thorough=600, level="exploration"),
     "C19": dict(engine="sim", quick=30, thorough=600, level="exploration"),
     "C20": dict(engine="sim", quick=30, thorough=600, level="fault_enumeration"),
@@ -180,32 +181,19 @@ def merge(outs):
     return m
 
 
-def check(prop, tier):
-    if prop not in PROPS:
-        log("unknown property " + prop)
-        sys.exit(2)
-    cfg = PROPS[prop]
-    if cfg["engine"] == "custom":
-        return cfg["fn"](prop, tier)
-    t0 = time.time()
-    seed = int(os.environ.get("VERIF_SEED", DEFAULT_SEED[tier]))
-    binary = build(cfg["engine"])
-    work = os.path.join(BUILD, "work", "%s-%s-%d" % (prop, tier, os.getpid()))
-    shutil.rmtree(work, ignore_errors=True)
-    os.makedirs(work)
-    os.makedirs(REPLAYS, exist_ok=True)
-    budget = float(os.environ.get("VERIF_BUDGET", cfg[tier]))
+def run_part(prop, goprop, engine, gomaxprocs, tier, seed, budget, work, known_sigs):
+    """Runs one (go property, engine) batch; returns merged results, or exits 2 on infrastructure trouble."""
+    binary = build(engine)
     nworkers = NCPU
-    findings, _fixed = load_known()
-    known_sigs = {f["sig"]: f for f in findings if f["prop"] == prop}
+    tag = "%s-%s" % (goprop, engine)
     specs = []
     for w in range(nworkers):
-        specs.append(dict(prop=prop, mode="explore", tier=tier, base_seed=seed, start=w, stride=nworkers,
+        specs.append(dict(prop=goprop, mode="explore", tier=tier, base_seed=seed, start=w, stride=nworkers,
                           max_runs=int(os.environ.get("VERIF_MAX_RUNS", "0")), budget_sec=budget,
-                          out=os.path.join(work, "out-%d.json" % w), replay_dir=os.path.join(work, "replays"),
+                          out=os.path.join(work, "%s-out-%d.json" % (tag, w)), replay_dir=os.path.join(work, "replays"),
                           shrink_sec=20.0 if tier == "quick" else 60.0, known_sigs=sorted(known_sigs),
-                          _specfile=os.path.join(work, "spec-%d.json" % w)))
-    outs = run_workers(binary, specs, cfg.get("gomaxprocs", 1), budget * 6 + 900)
+                          _specfile=os.path.join(work, "%s-spec-%d.json" % (tag, w))))
+    outs = run_workers(binary, specs, gomaxprocs, budget * 6 + 900)
     m = merge(outs)
     if m["infra"]:
         log("INFRASTRUCTURE FAILURE (exit 2): harness trouble inside runs:")
@@ -218,13 +206,13 @@ def check(prop, tier):
     # cross-process determinism recheck at other GOMAXPROCS values
     idxs = sorted(m["digests"].keys())
     recheck = dict(seeds=0, mismatches=0)
-    if idxs and cfg.get("recheck", True):
+    if idxs:
         sample = idxs[:: max(1, len(idxs) // (40 if tier == "quick" else 200))]
         rs = []
         for k, gmp in enumerate((4, 16)):
-            rs.append(dict(prop=prop, mode="recheck", tier=tier, base_seed=seed, indices=sample[k::2],
-                           out=os.path.join(work, "recheck-%d.json" % k), _gomaxprocs=gmp,
-                           _specfile=os.path.join(work, "recheck-%d.spec" % k)))
+            rs.append(dict(prop=goprop, mode="recheck", tier=tier, base_seed=seed, indices=sample[k::2],
+                           out=os.path.join(work, "%s-recheck-%d.json" % (tag, k)), _gomaxprocs=gmp,
+                           _specfile=os.path.join(work, "%s-recheck-%d.spec" % (tag, k))))
         routs = run_workers(binary, rs, 4, budget * 3 + 600)
         for ro in routs:
             for idx, dg in ro.get("digest_list") or []:
@@ -242,7 +230,7 @@ def check(prop, tier):
         if not rp or not os.path.exists(rp):
             log("INFRASTRUCTURE FAILURE (exit 2): violation without replay file: " + sig)
             sys.exit(2)
-        ro = replay_in_fresh_process(binary, rp, work, "v%d" % len(new_violations + list(known_seen)))
+        ro = replay_in_fresh_process(binary, rp, work, "%s-v%d" % (tag, len(new_violations) + len(known_seen)))
         if not ro.get("reproduced"):
             log("INFRASTRUCTURE FAILURE (exit 2): violation %s did not reproduce from its replay file %s in a fresh process" % (sig, rp))
             sys.exit(2)
@@ -256,43 +244,82 @@ def check(prop, tier):
             dst = os.path.join(REPLAYS, os.path.basename(rp))
             shutil.copy(rp, dst)
             new_violations.append((sig, v, dst))
+    return dict(m=m, recheck=recheck, known_seen=known_seen, new_violations=new_violations, workers=nworkers)
+
+
+def check(prop, tier):
+    if prop not in PROPS:
+        log("unknown property " + prop)
+        sys.exit(2)
+    cfg = PROPS[prop]
+    t0 = time.time()
+    seed = int(os.environ.get("VERIF_SEED", DEFAULT_SEED[tier]))
+    work = os.path.join(BUILD, "work", "%s-%s-%d" % (prop, tier, os.getpid()))
+    shutil.rmtree(work, ignore_errors=True)
+    os.makedirs(work)
+    os.makedirs(REPLAYS, exist_ok=True)
+    budget = float(os.environ.get("VERIF_BUDGET", cfg[tier]))
+    findings, _fixed = load_known()
+    known_sigs = {f["sig"]: f for f in findings if f["prop"] == prop}
+    # a check is one or more (go property, engine) parts
+    parts = cfg.get("parts") or [dict(goprop=prop, engine=cfg["engine"], share=1.0, gomaxprocs=cfg.get("gomaxprocs", 1))]
+    results = []
+    for part in parts:
+        results.append((part, run_part(prop, part["goprop"], part["engine"], part.get("gomaxprocs", 1), tier, seed, budget * part["share"], work, known_sigs)))
     wall = time.time() - t0
+    main = results[0][1]
+    m = main["m"]
     meta = m["meta"] or {}
     samples = []
-    for s in m["samples"][:4]:
-        samples.append(dict(run_index=s["index"], seed=s["seed"], config=s["config"], scheduled_steps=s["steps"], trace_head=s.get("trace_head") or []))
+    for _part, r in results:
+        for s in r["m"]["samples"][:3]:
+            samples.append(dict(run_index=s["index"], seed=s["seed"], config=s["config"], scheduled_steps=s["steps"], trace_head=s.get("trace_head") or []))
+    tot = lambda key: sum(r["m"][key] for _p, r in results)
+    def summ(key):
+        out = {}
+        for _p, r in results:
+            for k, v in r["m"][key].items():
+                out[k] = max(out.get(k, 0), v) if k.startswith("max:") else out.get(k, 0) + v
+        return out
+    new_violations = [x for _p, r in results for x in r["new_violations"]]
+    known_seen = {}
+    for _p, r in results:
+        known_seen.update(r["known_seen"])
     cov = dict(
-        evaluations=m["runs"],
-        distinct_nontrivial=len(m["nt"]),
-        rule=meta.get("rule", ""),
+        evaluations=tot("runs"),
+        distinct_nontrivial=sum(len(r["m"]["nt"]) for _p, r in results),
+        rule=" || ".join((r["m"]["meta"] or {}).get("rule", "") for _p, r in results),
         samples=samples,
         exhaustive=False,
-        enumerated_cases=m["enumerated"],
-        enumerated_cases_total=m["enum_total"],
-        nontrivial_runs=m["nontrivial"],
-        scheduled_steps=m["steps"],
-        simulated_seconds=round(m["sim_nanos"] / 1e9, 3),
-        runs_per_hour=int(m["runs"] / max(wall, 1e-9) * 3600),
-        workers=nworkers,
-        faults_fired=m["faults"],
-        probes=m["probes"],
-        run_outcomes=m["outcomes"],
-        determinism_recheck=dict(in_process_replays=m["self_check"][0], cross_process_seeds=recheck["seeds"], mismatches=0),
+        enumerated_cases=tot("enumerated"),
+        enumerated_cases_total=sum(r["m"]["enum_total"] for _p, r in results),
+        nontrivial_runs=tot("nontrivial"),
+        scheduled_steps=tot("steps"),
+        simulated_seconds=round(tot("sim_nanos") / 1e9, 3),
+        runs_per_hour=int(tot("runs") / max(wall, 1e-9) * 3600),
+        workers=main["workers"],
+        parts=[dict(go_property=p["goprop"], engine=p["engine"], runs=r["m"]["runs"], distinct_nontrivial=len(r["m"]["nt"])) for p, r in results],
+        faults_fired=summ("faults"),
+        probes=summ("probes"),
+        run_outcomes=summ("outcomes"),
+        determinism_recheck=dict(in_process_replays=sum(r["m"]["self_check"][0] for _p, r in results), cross_process_seeds=sum(r["recheck"]["seeds"] for _p, r in results), mismatches=0),
         known_findings_seen={k: v["count"] for k, v in known_seen.items()},
         new_violation_signatures=[s for s, _, _ in new_violations],
-        components=dict(real=meta.get("real", []), stub=meta.get("stub", [])),
+        components=dict(real=sorted({x for _p, r in results for x in (r["m"]["meta"] or {}).get("real", [])}), stub=sorted({x for _p, r in results for x in (r["m"]["meta"] or {}).get("stub", [])})),
     )
-    zero_probes = [k for k, v in m["probes"].items() if v == 0]
+    assumptions = []
+    for _p, r in results:
+        for a in (r["m"]["meta"] or {}).get("assumptions", []):
+            if a not in assumptions:
+                assumptions.append(a)
     ev = dict(property_id=prop, tier=tier, seed=seed, level=meta.get("level") or cfg["level"], coverage=cov,
-              assumptions=meta.get("assumptions", []), wall_s=round(wall, 2), violations=len(new_violations))
+              assumptions=assumptions, wall_s=round(wall, 2), violations=len(new_violations))
     os.makedirs(EVIDENCE, exist_ok=True)
     with open(os.path.join(EVIDENCE, prop + ".json"), "w") as f:
         json.dump(ev, f, indent=1)
     log("%s %s: %d runs (%d enumerated of %d), %d non-trivial, %d distinct non-trivial traces, %.0f simulated s, %.1fs wall; faults=%s probes=%s outcomes=%s"
-        % (prop, tier, m["runs"], m["enumerated"], m["enum_total"], m["nontrivial"], len(m["nt"]), m["sim_nanos"] / 1e9, wall,
-           json.dumps(m["faults"], sort_keys=True), json.dumps(m["probes"], sort_keys=True), json.dumps(m["outcomes"], sort_keys=True)))
-    if zero_probes:
-        log("warning: probes at zero: " + ", ".join(zero_probes))
+        % (prop, tier, cov["evaluations"], cov["enumerated_cases"], cov["enumerated_cases_total"], cov["nontrivial_runs"], cov["distinct_nontrivial"], cov["simulated_seconds"], wall,
+           json.dumps(cov["faults_fired"], sort_keys=True), json.dumps(cov["probes"], sort_keys=True), json.dumps(cov["run_outcomes"], sort_keys=True)))
     shutil.rmtree(work, ignore_errors=True)
     if new_violations:
         for sig, v, dst in new_violations:
@@ -302,11 +329,17 @@ def check(prop, tier):
     sys.exit(0)
 
 
+GO_PROPS = {"C12S": ("C12", "race")}
+
+
 def replay(path):
     rf = json.load(open(path))
     prop = rf["property"]
+    engine = None
+    if prop in GO_PROPS:
+        prop, engine = GO_PROPS[prop]
     cfg = PROPS[prop]
-    binary = build(cfg["engine"])
+    binary = build(engine or cfg["engine"])
     work = os.path.join(BUILD, "work", "replay-%d" % os.getpid())
     os.makedirs(work, exist_ok=True)
     ro = replay_in_fresh_process(binary, os.path.abspath(path), work, "x")
@@ -329,6 +362,8 @@ def replay(path):
 def selftest_determinism(prop, nseeds):
     cfg = PROPS[prop]
     binary = build(cfg["engine"])
+    if cfg.get("parts"):
+        prop = cfg["parts"][0]["goprop"]
     work = os.path.join(BUILD, "work", "det-%s-%d" % (prop, os.getpid()))
     shutil.rmtree(work, ignore_errors=True)
     os.makedirs(work)
